@@ -11,7 +11,6 @@ import (
 	"gverif/internal/load"
 
 	"golang.org/x/tools/go/callgraph"
-	"golang.org/x/tools/go/callgraph/cha"
 	"golang.org/x/tools/go/ssa"
 )
 
@@ -87,11 +86,7 @@ func C12(e *Env) {
 		stepLoopRule(e, "R12.6", compilerRel, "Compiler.Compile", "Process")
 	}
 	wiringTypes(e)
-	if gen := e.P.Func("internal/cmd/runner", "StepCodeGenerator.Run"); gen != nil && len(findCalls(gen, "os.WriteFile", false)) == 1 {
-		c10Write(e, gen)
-	} else {
-		r.Violate("R10.2", "internal/cmd/runner.StepCodeGenerator.Run#single-write", "the code generator does not write the output with exactly one os.WriteFile: the output-file contract on failure paths is not decided (see C10)", nil)
-	}
+	sharedWriteRules(e)
 	c10RunE(e)
 	r.Rule("R10.6", "error list (shared with C10)", 1)
 	r.Rule("R10.2", "output-file contract on every path (shared with C10): the file is written only after a successful build, and a nil return only after a successful write", 2)
@@ -1255,7 +1250,9 @@ func trueImpliesFieldNonNil(g *ssa.Function, prm *ssa.Parameter, field string) b
 
 func c12Recursion(e *Env) {
 	r := e.R
-	cg := cha.CallGraph(e.P.SSA)
+	// VTA: a call of a function value is resolved through the values that can reach it (a wrapper closure
+	// `func(s) { …; return v(s) }` calls what was passed as v, not every function of that signature)
+	cg := e.vtaGraph()
 	// SCCs restricted to module functions
 	index := 0
 	idx := map[*callgraph.Node]int{}
